@@ -11,7 +11,7 @@ use serde_json::{json, Value};
 pub static ENGINE: Engine = Engine {
     prop: "C10",
     level: "exploration",
-    rule: "the real rsbdd binary on EVERY formula with <= 3 (4) AST nodes over the CLI alphabet (4 leaves, not, & | => ^, if, 4 quantifier heads, lfp/gfp, 5 counting comparisons; names bound, free, both) with -t under filter Any/True/False; on every formula <= 2 (3) nodes additionally: all 15 accepted filter spellings and 6 rejected near-misses, the three input channels (--evaluate, file, stdin; byte-identical stdout), every permutation / ordered subset / one-name superset (unused name before, between, after) of its names as ordering file, -v, -t -v together under each filter, -t -b 1, -t -b 3 (byte-identical to -t), and on a 14-formula core the full cross product spelling x channel x ordering x output; ten formulas with five or six free variables and two with names of 38 and 86 characters under three filters, -v and four orderings; and the option lattice {-t,-v,-t -v} x -f x -c x -m x -b x ordering x channel on a ten-formula core against the pipeline evaluate -> -c -> -m computed through the library API; tables of and/or chains over 7..100 variables judged without a truth table (each row's cube determines the value, rows disjoint, covered assignments add up). Oracle: header = reference free variables in variable order; rows pairwise disjoint cubes; result column = reference value on every assignment covered; union = all / satisfying / falsifying assignments; -v lines denote exactly the satisfying assignments. distinct = distinct (argv, stdout) pairs",
+    rule: "the real rsbdd binary on EVERY formula with <= 3 (4) AST nodes over the CLI alphabet (4 leaves, not, & | => ^, if, 4 quantifier heads, lfp/gfp, 5 counting comparisons; names bound, free, both) with -t under filter Any/True/False; on every formula <= 2 (3) nodes additionally: all 15 accepted filter spellings and 6 rejected near-misses, the three input channels (--evaluate, file, stdin; byte-identical stdout), every permutation / ordered subset / one-name superset (unused name before, between, after) of its names as ordering file, -v, -t -v together under each filter, -t -b 1, -t -b 3 (byte-identical to -t), and on a 14-formula core the full cross product spelling x channel x ordering x output; ten formulas with five or six free variables and two with names of 38 and 86 characters under three filters, -v and four orderings; and the option lattice {-t,-v,-t -v} x -f x -c x -m x -b x ordering x channel on a ten-formula core against the pipeline evaluate -> -c -> -m computed through the library API; tables of and/or chains over 7..100 variables judged without a truth table (each row's cube determines the value, rows disjoint, covered assignments add up); benchmark repetition counts -b 2..2048 around powers of two on the 14-formula core with -t, -v and -t -f true. Oracle: header = reference free variables in variable order; rows pairwise disjoint cubes; result column = reference value on every assignment covered; union = all / satisfying / falsifying assignments; -v lines denote exactly the satisfying assignments. distinct = distinct (argv, stdout) pairs",
     assumptions: &["only the |-separated cells of stdout are read (layout is free)", "reference semantics and free-variable analysis of harness/src/refl.rs; -b 0 and -g are outside the property"],
     max_shards: 64,
     run,
@@ -489,6 +489,21 @@ fn run(ctx: &mut Ctx) {
     let mut idx = 0u64;
     for f in CORE {
         family_c(ctx, f, &mut idx);
+    }
+    // benchmark repetition counts around powers of two: the answer never depends on -b
+    for f in CORE {
+        for n in [2usize, 4, 5, 8, 15, 16, 17, 32, 64, 100, 128, 255, 256, 257, 511, 512, 513, 768, 1000, 1024, 2048] {
+            for (opts, mode) in [(vec!["-t".to_string()], Mode::Table(Filter::Any)), (vec!["-v".to_string()], Mode::Vars), (vec!["-t".to_string(), "-f".into(), "true".into()], Mode::Table(Filter::True))] {
+                idx += 1;
+                if !ctx.mine(idx) {
+                    continue;
+                }
+                let mut o = opts.clone();
+                o.extend(["-b".to_string(), n.to_string()]);
+                check_run(ctx, &base(f, o), mode);
+                ctx.count("repetition_count_runs", 1);
+            }
+        }
     }
     pipeline_lattice(ctx, &mut idx);
     wide_tables(ctx, &mut idx);
